@@ -316,6 +316,8 @@ def work(job):
     cases = [G.gen_case(rng, layout, real, boundary=(i % 4 == 0)) for i in range(n_random)]
     if with_boundary:
         cases += G.boundary_cases(layout, real)
+    if real is None and lattice is None and (not isinstance(seed, tuple) or seed[-1] in (0, False, True)):
+        cases += G.complement_zone_cases(layout)      # deterministic, first chunk of every nominal layout
     if lattice:
         mode, part, parts = lattice
         # the same rng seed for every part of a layout: the parts partition one list
